@@ -27,7 +27,7 @@ func c09(c *Ctx) {
 	implFld := c.fieldOf("store", "WriteControlledStore", "impl")
 	n := 0
 	for _, m := range c.methodsOf("store", "WriteControlledStore") {
-		if strings.HasSuffix(m.Name(), "Unchecked") || m == acq || m == rel {
+		if strings.HasSuffix(engine.ShortName(m), "Unchecked") || m == acq || m == rel {
 			continue
 		}
 		for _, f := range engine.WithClosures(m) {
@@ -80,7 +80,7 @@ func c09(c *Ctx) {
 			okAll, bad := true, ""
 			origins := P.Origins(idArg, engine.OriginOpts{FollowFields: true, Through: commonThrough, MaxDepth: 30, Stop: func(v ssa.Value) bool {
 				if call, ok := v.(*ssa.Call); ok {
-					if sc := call.Call.StaticCallee(); sc != nil && sc.Name() == "NewInternalMessageID" {
+					if sc := call.Call.StaticCallee(); sc != nil && engine.ShortName(sc) == "NewInternalMessageID" {
 						return true
 					}
 				}
@@ -88,7 +88,7 @@ func c09(c *Ctx) {
 			}})
 			for _, o := range origins {
 				if call, ok := o.V.(*ssa.Call); ok {
-					if sc := call.Call.StaticCallee(); sc != nil && sc.Name() == "NewInternalMessageID" {
+					if sc := call.Call.StaticCallee(); sc != nil && engine.ShortName(sc) == "NewInternalMessageID" {
 						continue
 					}
 					if call.Call.IsInvoke() && call.Call.Method.Name() == "CreateMessage" {
@@ -171,7 +171,7 @@ func c09(c *Ctx) {
 	// ---- R09.4 -----------------------------------------------------------------------
 	e := c.errorsPropagated("R09.4", []string{"store"}, func(cs engine.CallSite) (string, bool) {
 		top := topFn(cs.Fn)
-		if engine.RecvNamed(top) == nil || engine.RecvNamed(top).Obj().Name() != "onDiskStore" || (top.Name() != "Set" && top.Name() != "Get") {
+		if engine.RecvNamed(top) == nil || engine.RecvNamed(top).Obj().Name() != "onDiskStore" || (engine.ShortName(top) != "Set" && engine.ShortName(top) != "Get") {
 			return "", false
 		}
 		if cs.Fn.Parent() != nil {
@@ -185,11 +185,11 @@ func c09(c *Ctx) {
 			return "", false
 		}
 		switch {
-		case sc.Name() == "Write" && engine.RecvNamed(sc) != nil && engine.RecvNamed(sc).Obj().Name() == "File":
+		case engine.ShortName(sc) == "Write" && engine.RecvNamed(sc) != nil && engine.RecvNamed(sc).Obj().Name() == "File":
 			return "file.Write", true
-		case (sc.Name() == "ReadFull" || sc.Name() == "ReadAtLeast") && engine.PkgPathOf(sc) == "io":
-			return "io." + sc.Name(), true
-		case sc.Name() == "WriteTo" && strings.Contains(engine.PkgPathOf(sc), "lz4"):
+		case (engine.ShortName(sc) == "ReadFull" || engine.ShortName(sc) == "ReadAtLeast") && engine.PkgPathOf(sc) == "io":
+			return "io." + engine.ShortName(sc), true
+		case engine.ShortName(sc) == "WriteTo" && strings.Contains(engine.PkgPathOf(sc), "lz4"):
 			return "decompressor.WriteTo", true
 		}
 		return "", false
@@ -227,7 +227,7 @@ func c09(c *Ctx) {
 								errIx = 1
 							}
 							for _, cs2 := range engine.Calls(cl) {
-								if sc := cs2.Common().StaticCallee(); sc != nil && sc.Name() == "CloseWithError" && (engine.EdgeDominates(iff.Block(), errIx, cs2.Instr.Block()) || iff.Block().Succs[errIx] == cs2.Instr.Block()) {
+								if sc := cs2.Common().StaticCallee(); sc != nil && engine.ShortName(sc) == "CloseWithError" && (engine.EdgeDominates(iff.Block(), errIx, cs2.Instr.Block()) || iff.Block().Succs[errIx] == cs2.Instr.Block()) {
 									// the error handed on derives from the Open error
 									if engine.AnyBackward(cs2.Common().Args[1], engine.FlowOpts{AppendElems: true, Calls: func(cl2 *ssa.Call) []ssa.Value { return cl2.Call.Args }}, func(x ssa.Value) bool { return x == ssa.Value(ex) }) {
 										ok = true
@@ -259,7 +259,7 @@ func c09(c *Ctx) {
 				continue // lifecycle, not data access
 			}
 			raw++
-			okc := topFn(f).Name() == "newUser"
+			okc := c.isAnchor(topFn(f), "internal/backend.newUser")
 			R.Check(okc, "R09.5", c.name(f)+"|raw-store."+cc.Method.Name(), P.Pos(cs.Pos()), "raw store used by the start-up scan only", "the raw store.Store is called from "+c.name(f)+", bypassing the per-id locks of WriteControlledStore")
 		}
 	}
@@ -270,7 +270,7 @@ func c09(c *Ctx) {
 		found := false
 		for _, cs := range engine.Calls(set) {
 			sc := cs.Common().StaticCallee()
-			if sc == nil || sc.Name() != "OpenFile" || engine.PkgPathOf(sc) != "os" {
+			if sc == nil || engine.ShortName(sc) != "OpenFile" || engine.PkgPathOf(sc) != "os" {
 				continue
 			}
 			found = true
@@ -347,10 +347,10 @@ func serialisedBySyncRef(f *ssa.Function, at ssa.Instruction, idVal ssa.Value, n
 		if !ok || fa.X != ssa.Value(acqCall) {
 			continue
 		}
-		switch sc.Name() {
+		switch engine.ShortName(sc) {
 		case "Lock", "RLock":
 			if _, isDefer := in2.(*ssa.Defer); !isDefer && engine.InstrDominates(in2, at) {
-				locked, mode = true, sc.Name()
+				locked, mode = true, engine.ShortName(sc)
 			}
 		case "Unlock", "RUnlock":
 			if _, isDefer := in2.(*ssa.Defer); isDefer {
@@ -448,9 +448,9 @@ func closureRunUnderSyncRef(c *Ctx, cl *ssa.Function, idInClosure ssa.Value, nam
 					}
 				}
 				if !same {
-					return false, "the id locked by " + g.Name() + " is not the id the closure passes to the wrapped store"
+					return false, "the id locked by " + engine.ShortName(g) + " is not the id the closure passes to the wrapped store"
 				}
-				return true, "inside " + g.Name() + ": " + why
+				return true, "inside " + engine.ShortName(g) + ": " + why
 			}
 		}
 	}
